@@ -236,3 +236,73 @@ for v, q in [("c12_major_low", True), ("c12_major_high", True), ("c12_v7_legacy"
         bounds="major (within its class), minor, max_readahead, flags, flags2 and the filesystem's wanted option word all symbolic (full width); payload presence 16/40/64 bytes concrete",
         functions=["Server::init", "FsOptions::from_bits_truncate", "reply_ok/do_reply_error", "Server.vers (ArcSwap model)"],
         stubs=SRV_STUBS + ["pagesize() = 4096 (model transport)", "arc-swap replaced by its sequential specification (models/arc-swap-seq)"], role="init:" + v)
+
+
+# ============================================================================ VFS harnesses (real overlay)
+VFS = "harness/real/vfs__core.rs"
+VSUP = ["harness/real/pseudo__mk.rs"]
+VFS_STUBS = [STUB_TC, STUB_FMT, "std::hash::RandomState::new -> fixed keys (hash KEYS stay concrete in every harness)",
+             "arc-swap replaced by its sequential specification (models/arc-swap-seq)",
+             "scripted recording backends behind the real Box<dyn BackendFileSystem> dispatch"]
+VFS_ASSUME = ["Vfs constructed directly (struct literal): backends at index 1 and 7, every other slot vacant, 8-entry tables (crate: 256; only indices < 8 are used, chosen by branching among mounted A / mounted B / vacant); no mount/umount history, no path walking (PseudoFs::mount uses std::path parsing)",
+              "id mappings are ranges inside the 32-bit id space (from+range, to+range <= 2^32)"]
+
+
+def reg_vfs(fn, props, quick=True, timeout=600, what="", bounds="", functions=None, unwind=None):
+    reg(VFS, fn, props, tier="quick" if quick else "thorough", flavour="real", timeout=timeout, timeout_thorough=1500, support=VSUP, cost=2,
+        mem=24 if "link" in fn else 12,
+        what=what, bounds=bounds, functions=functions or [], stubs=VFS_STUBS, assumptions=VFS_ASSUME, role=fn,
+        unwindset={"std::sync::Arc::<api::pseudo_fs::PseudoInode>::drop_slow": 1})
+
+
+reg(VFS, "c14_remap_id_all", ["C14"], flavour="real", timeout=300, support=VSUP, unwindset_ioerr=False,
+    what="remap_id over all (value, from, to, range)", bounds="4 x u32 fully symbolic under the range precondition", functions=["api::vfs::remap_id"],
+    assumptions=["from+range <= 2^32 and to+range <= 2^32 (a mapping is a pair of ranges inside the id space)"])
+reg(VFS, "c07_inode_pack", ["C07"], flavour="real", timeout=300, support=VSUP, unwindset_ioerr=False,
+    what="VfsInode pack/unpack", bounds="index u8, inode <= 2^56-1 symbolic", functions=["VfsInode::{new,fs_idx,ino,is_pseudo_fs}", "From<u64>/Into<u64>"])
+reg_vfs("c07_convert_inode", ["C07"], what="convert_inode for all (index, inode)", bounds="index u8 and inode u64 symbolic", functions=["Vfs::convert_inode"])
+for v in ("a", "b", "vacant"):
+    reg_vfs("c07_route_setattr_" + v, ["C07"], quick=v != "b", what="routing of an inode at index %s (SETATTR)" % v, bounds="index concrete (mounted A=1 / mounted B=7 / vacant 3), 56 backend inode bits and backend answer symbolic",
+            functions=["Vfs::setattr", "Vfs::get_real_rootfs", "Vfs::get_fs_by_idx", "Vfs::convert_attr"])
+for v in ("a", "vacant"):
+    reg_vfs("c07_route_getattr_" + v, ["C07"], quick=False, what="GETATTR wiring at index %s (fixed backend inode)" % v, bounds="backend inode fixed (5); backend answer symbolic",
+            functions=["Vfs::getattr", "Vfs::get_real_rootfs", "Vfs::convert_attr"])
+for v in ("a", "b"):
+    reg_vfs("c07_route_mkdir_" + v, ["C07"], quick=v == "b", what="entry re-numbering through backend %s (MKDIR)" % v, bounds="56 parent inode bits and returned Entry symbolic",
+            functions=["Vfs::mkdir", "Vfs::convert_backend_entry", "Vfs::convert_entry", "Vfs::convert_inode"])
+reg_vfs("c07_route_lookup_b", ["C07"], quick=False, what="LOOKUP wiring through backend B (fixed parent inode)", bounds="parent inode fixed (5); returned Entry symbolic",
+        functions=["Vfs::lookup", "Vfs::convert_backend_entry"])
+for v in ("c07_cross_rename_ab", "c07_cross_link_ba", "c07_same_rename_aa", "c07_same_link_bb"):
+    reg_vfs(v, ["C07"], quick=v in ("c07_cross_rename_ab", "c07_same_link_bb"), what="rename/link across or within mounts", bounds="both inodes symbolic; mount pair concrete", functions=["Vfs::rename", "Vfs::link"])
+reg_vfs("c07_root_mount", ["C07"], quick=False, what="mount on the VFS root", bounds="concrete", functions=["Vfs::get_real_rootfs root special case", "Vfs::access"])
+for i, op in enumerate(["lookup", "getattr", "setattr", "mkdir", "mknod", "symlink", "link", "create", "readdirplus"]):
+    for v in ("a", "b"):
+        reg_vfs("c14_path_%s_%s" % (op, v), ["C14"], quick=(op, v) in (("lookup", "a"), ("setattr", "a"), ("setattr", "b"), ("readdirplus", "b"), ("link", "a"), ("getattr", "b")),
+                what="%s through backend %s (A has its own mapping or none, B falls back to the global one)" % (op, v),
+                bounds="global and per-mount mapping (or none) symbolic; caller uid/gid, owner ids in the request and in the backend's answer symbolic; mount concrete",
+                functions=["Vfs::%s" % op, "Vfs::id_remap_with_nodeid", "get_effective_id_mapping", "remap_id", "convert_entry/convert_attr/remap_attr_id"])
+reg_vfs("c14_effective_mapping", ["C14"], what="effective mapping for every index", bounds="index u8, three mappings symbolic", functions=["Vfs::get_effective_id_mapping"])
+reg_vfs("c12_vfs_init", ["C12"], what="Vfs::init option algebra, second INIT", bounds="no_open/no_opendir/no_writeback/killpriv_v2 switches, offered and client option words all symbolic",
+        functions=["<Vfs as FileSystem>::init", "Vfs::options"])
+reg_vfs("c12_vfs_open_mode", ["C12"], what="OPEN/OPENDIR answered ENOSYS iff no-open/no-opendir", bounds="both switches symbolic", functions=["Vfs::open", "Vfs::opendir"])
+reg(VFS, "c06_name_predicates", ["C06"], flavour="real", timeout=300, support=VSUP, unwindset_ioerr=False,
+    what="name predicates for all names of <= 3 bytes", bounds="length 0..3 and every byte symbolic (non-NUL)", functions=["is_safe_path_component", "validate_path_component", "is_dot_or_dotdot"])
+for op in ["symlink", "mknod", "mkdir", "unlink", "rmdir", "rename_old", "rename_new", "link", "create", "lookup"]:
+    reg_vfs("c06_vfs_" + op, ["C06"], quick=op in ("mkdir", "rename_new", "lookup", "unlink"),
+            what="VFS %s rejects bad names before any backend" % op, bounds="name of <= 3 symbolic bytes", functions=["Vfs::%s" % op.split("_")[0], "validate_path_component"])
+
+
+# ============================================================================ passthrough kernels (real overlay)
+PTP = "harness/real/ptsync__pure.rs"
+for fn, q in [("c18_seal_write", True), ("c18_seal_fallocate", True), ("c18_seal_other_opcodes", True)]:
+    reg(PTP, fn, ["C18"], flavour="real", timeout=600, tier="quick", cost=1,
+        what="seal_size_check: soundness and completeness", bounds="file_size, offset, size: u64 and mode: i32 fully symbolic",
+        functions=["PassthroughFs::seal_size_check"], stubs=[STUB_FMT],
+        assumptions=["&self is never read by seal_size_check: an uninitialised instance is passed"], role=fn)
+reg(PTP, "c16_last_cookie_arbitrary", ["C16"], flavour="real", timeout=600, unwindset_ioerr=False,
+    what="last_cookie_in_buf on arbitrary bytes", bounds="buffer of <= 72 arbitrary bytes, length symbolic; <= 3 records (unwind 6)", functions=["PassthroughFs::last_cookie_in_buf"], role="c16_last_cookie")
+reg(PTP, "c16_skip_to_cookie_chain", ["C16"], flavour="real", timeout=900, unwindset_ioerr=False,
+    what="skip_to_cookie on a well-formed 3-record chain", bounds="record lengths 24/32/24 concrete; every other byte (d_ino, d_off, type, names) and the cookie symbolic",
+    functions=["PassthroughFs::skip_to_cookie"], assumptions=["getdents64 buffers come from the host kernel: record lengths are well-formed"], role="c16_skip")
+# c16_cookie_cache_step / c16_cache_cookie_records_last (HandleMap's HashMap<Handle,u64>) exist in the
+# harness file but are NOT registered: hashbrown insert/remove did not finish in 900 s (see DESIGN.md).
